@@ -4,6 +4,8 @@
 -/
 import GM.Proof.QuoteSimBlank
 import GM.Proof.QuoteSimRInd
+import GM.Proof.QuoteSimInvNE
+import GM.Proof.QuoteSimMid
 
 namespace GM.Blocks
 open GM GM.Text GM.Spec GM.Proof.Reader
@@ -189,9 +191,18 @@ theorem linesLoop_nil (f : Nat) (st : List LineStat) (s : St) (he : s.pc.opened 
   simp only [he, List.length_nil, beq_self_eq_true, if_true]
   rfl
 
+/-- the blank-line statistics of the two runs at the start of line `k` (only claimed for sources without a blank line,
+    `FL`): related as `LSt` says, and not empty when nothing is open in A (`oA`) — line `k - 1` was visited by A's
+    per-line loop then. On line 0 both runs are in the outer loop with empty statistics. -/
+def SInv (src : Bytes) (k : Nat) (oA : List Block) (stA stB : List LineStat) : Prop :=
+  FL src → LSt (k : Int) stA stB ∧ (oA = [] → stA ≠ [])
+
+theorem bqStat_eq (src : Bytes) (k ls : Nat) : bqStat src k ls = bqE (k : Int) := rfl
+
 /-- the whole-run goal: B's per-line loop ends the parse, in a store related to A's final store -/
-def Goal (src : Bytes) (fB : Nat) (sB : St) (sA' : St) : Prop :=
-  ∀ stB, ∃ x sB', linesLoop 0 fB stB sB = .ok ((true, x), sB') ∧ FRel src sA'.nodes sB'.nodes
+def Goal (src : Bytes) (al : BP → Bool) (fB : Nat) (k : Nat) (oA : List Block) (stA : List LineStat) (sB : St) (sA' : St) : Prop :=
+  ∀ stB, SInv src k oA stA stB →
+    ∃ x sB', linesLoop 0 fB stB sB = .ok ((true, x), sB') ∧ FRel src al sA'.nodes sB'.nodes
 
 /-- A's reader ended behind the last line -/
 def ReadToEnd (src : Bytes) (s : St) : Prop := ∀ ls, ¬ LineAt src s.r.line.toNat ls
@@ -206,24 +217,30 @@ theorem bind_inv {α β} {m : M α} {f : α → M β} {s : St} {b : β} {s' : St
 
 /-- the induction predicate of the line-by-line argument, for B's remaining line fuel `fB` -/
 def MainP (src : Bytes) (al : BP → Bool) (fB : Nat) : Prop :=
-  ∀ (k ls : Nat) (sA sB : St), LS src al k ls sA sB → Pos src k ls → nlCount src + 2 ≤ fB + k →
+  ∀ (k ls : Nat) (sA sB : St), LS src al k ls sA sB → L.StableL src 0 sA → Pos src k ls → nlCount src + 2 ≤ fB + k →
     ∀ sA',
-      (sA.pc.opened = [] → ∀ sf lines fo stA, (skipFrom sf lines >>= blocksBody fo stA) sA = .ok ((), sA') →
-        Goal src fB sB sA') ∧
-      (sA.pc.opened ≠ [] → ∀ fi fo stA, resume fo fi stA sA = .ok ((), sA') → Goal src fB sB sA')
+      (sA.pc.opened = [] → ∀ sf lines fo stA, (FL src → lines = 0) →
+        (skipFrom sf lines >>= blocksBody fo stA) sA = .ok ((), sA') → Goal src al fB k sA.pc.opened stA sB sA') ∧
+      (sA.pc.opened ≠ [] → ∀ fi fo stA, resume fo fi stA sA = .ok ((), sA') → Goal src al fB k sA.pc.opened stA sB sA')
+
+theorem advanceLine_run' (s : St) : advanceLine s = .ok ((), { s with r := s.r.advanceLine }) := rfl
 
 /-- after a line: both runs call AdvanceLine and go on -/
 theorem afterLine {src al} (ns : NS src) {f : Nat} (ih : MainP src al f) {k ls p : Nat} {sA1 sB1 : St}
     (hd : DR src al k ls p sA1 sB1) (hfuel : nlCount src + 2 ≤ f + (k + 1)) {sA' : St}
     (fo fi : Nat) (stA : List LineStat)
-    (hA : (advanceLine >>= fun _ => resume fo fi stA) sA1 = .ok ((), sA')) (stB : List LineStat) :
+    (hA : (advanceLine >>= fun _ => resume fo fi stA) sA1 = .ok ((), sA')) (stB : List LineStat)
+    (hsi : SInv src (k + 1) sA1.pc.opened stA stB) (hst1 : L.StableL src 0 sA1) :
     ∃ x sB', (advanceLine >>= fun _ => linesLoop 0 f stB) sB1 = .ok ((true, x), sB') ∧
-      FRel src sA'.nodes sB'.nodes := by
+      FRel src al sA'.nodes sB'.nodes := by
   obtain ⟨u, sA2, eA, hA2⟩ := bind_inv hA
   obtain ⟨_, sB2, eB, hls⟩ := advanceLine_LS hd u sA2 eA
+  have hpc2 : sA2.pc = sA1.pc := by rw [advanceLine_run'] at eA; cases eA; rfl
+  have hst2 : L.StableL src 0 sA2 := by rw [advanceLine_run'] at eA; cases eA; exact hst1.congr_r _
+  rw [← hpc2] at hsi
   rw [bind_run eB]
   have hpos := pos_next hd.s.r.inl.line
-  obtain ⟨h1, h2⟩ := ih (k + 1) (lineEnd src ls) sA2 sB2 hls hpos hfuel sA'
+  obtain ⟨h1, h2⟩ := ih (k + 1) (lineEnd src ls) sA2 sB2 hls hst2 hpos hfuel sA'
   by_cases ho : sA2.pc.opened = []
   · -- nothing open in A: its per-line loop breaks and the outer loop goes on
     unfold resume at hA2
@@ -236,8 +253,8 @@ theorem afterLine {src al} (ns : NS src) {f : Nat} (ih : MainP src al f) {k ls p
       | zero => cases hA2
       | succ fo =>
         rw [blocksLoop_eq] at hA2
-        exact h1 ho _ _ _ _ hA2 stB
-  · exact h2 ho _ _ _ hA2 stB
+        exact h1 ho _ 0 _ _ (fun _ => rfl) hA2 stB hsi
+  · exact h2 ho _ _ _ hA2 stB hsi
 
 /-! ### the end of the source -/
 
@@ -262,8 +279,9 @@ theorem advanceLine_run (s : St) : advanceLine s = .ok ((), { s with r := s.r.ad
 theorem eofNil {src al k ls} {sA sB : St} (h : LS src al k ls sA sB)
     (he : ls = src.length ∧ (quotePrefix src).length = ls + 2 * k) (ho : sA.pc.opened = []) (f : Nat) {sA' : St}
     (sf : Nat) (lines : Int) (fo : Nat) (stA : List LineStat)
-    (hA : (skipFrom (sf + 1) lines >>= blocksBody fo stA) sA = .ok ((), sA')) : Goal src (f + 1) sB sA' := by
-  intro stB
+    (hA : (skipFrom (sf + 1) lines >>= blocksBody fo stA) sA = .ok ((), sA')) :
+    Goal src al (f + 1) k sA.pc.opened stA sB sA' := by
+  intro stB _
   obtain ⟨r1, e1⟩ := skipFrom_eof (he.1 ▸ h.ra) sf lines
   rw [bind_run e1, blocksBody_false] at hA
   cases hA
@@ -280,7 +298,7 @@ theorem eofNil {src al k ls} {sA sB : St} (h : LS src al k ls sA sB)
   have ec := closeBq_only (sB := { sB with r := rB }) hob hp1
   have hL : ((([bqBlock] : List Block).length : Nat) : Int) - 1 = 0 := rfl
   rw [hL] at eB
-  refine ⟨stB, { r := rB.advanceLine, nodes := sB.nodes, pc := { sB.pc with opened := [] } }, ?_, h.n, h.a.u⟩
+  refine ⟨stB, { r := rB.advanceLine, nodes := sB.nodes, pc := { sB.pc with opened := [] } }, ?_, h.n, h.a.u, h.a.nk⟩
   show StateT.bind _ _ sB = _
   unfold StateT.bind
   rw [hL, eB, bind_run ec, bind_run (advanceLine_run _)]
@@ -292,7 +310,7 @@ theorem closeAll_anyReader {src al} (ps : PS src al) (fr : Frames al) (h0 : Line
     {sA sB : St} (hsA : sA.r.source = src) (hsB : sB.r.source = quotePrefix src)
     (hn : StoreRel src sA.nodes sB.nodes) (hc : CtxRel sA.pc sB.pc) (ha : AInv al sA.pc sA.nodes)
     (L : Int) (hL : L = (sA.pc.opened.length : Int) - 1) {sA2 : St} (hA : closeBlocks L 0 sA = .ok ((), sA2)) :
-    ∃ sB2, closeBlocks (L + 1) 0 sB = .ok ((), sB2) ∧ FRel src sA2.nodes sB2.nodes := by
+    ∃ sB2, closeBlocks (L + 1) 0 sB = .ok ((), sB2) ∧ FRel src al sA2.nodes sB2.nodes := by
   -- readers inside line 0
   have hiA : RI src (Reader.new src) ⟨0, 0, 0⟩ := ri_init src
   have hiB0 : RI (quotePrefix src) (initSt (quotePrefix src)).r ⟨((0 : Nat) : Int), 0 + 2 * 0, 0⟩ := ri_init (quotePrefix src)
@@ -324,8 +342,9 @@ structure Cls (src : Bytes) (al : BP → Bool) : Prop where
 
 theorem eofOpen {src al} (cl : Cls src al) {k ls} {sA sB : St} (h : LS src al k ls sA sB)
     (he : ls = src.length ∧ (quotePrefix src).length = ls + 2 * k) (ho : sA.pc.opened ≠ []) (f : Nat) {sA' : St}
-    (fi fo : Nat) (stA : List LineStat) (hA : resume fo (fi + 1) stA sA = .ok ((), sA')) : Goal src (f + 1) sB sA' := by
-  intro stB
+    (fi fo : Nat) (stA : List LineStat) (hA : resume fo (fi + 1) stA sA = .ok ((), sA')) :
+    Goal src al (f + 1) k sA.pc.opened stA sB sA' := by
+  intro stB _
   unfold resume at hA
   obtain ⟨z, sA1, hz, hA1⟩ := bind_inv hA
   rw [linesLoop_ne fi stA sA ho] at hz
@@ -369,11 +388,13 @@ theorem rebind {α β} {m m' : M α} {f : α → M β} {s s1 : St} (e : m s = m'
 
 /-- a blank line while nothing is open in A: A skips it, B's Blockquote consumes its marker and opens nothing -/
 theorem lineBlankNil {src al} (cl : Cls src al) {f : Nat} (ih : MainP src al f) {k ls} {sA sB : St}
-    (h : LS src al k ls sA sB) (hl : LineAt src k ls) (ho : sA.pc.opened = [])
+    (h : LS src al k ls sA sB) (hsl : L.StableL src 0 sA) (hl : LineAt src k ls) (ho : sA.pc.opened = [])
     (hb : isBlank (sub src ls (lineEnd src ls)) = true) (hfuel : nlCount src + 2 ≤ f + 1 + k) {sA' : St}
     (sf : Nat) (lines : Int) (fo : Nat) (stA : List LineStat)
-    (hA : (skipFrom (sf + 1) lines >>= blocksBody fo stA) sA = .ok ((), sA')) : Goal src (f + 1) sB sA' := by
-  intro stB
+    (hA : (skipFrom (sf + 1) lines >>= blocksBody fo stA) sA = .ok ((), sA')) :
+    Goal src al (f + 1) k sA.pc.opened stA sB sA' := by
+  intro stB _
+  have hnfl : ¬ FL src := fun hfl => by rw [hfl k ls hl] at hb; cases hb
   obtain ⟨r1, e1, hr1⟩ := skipFrom_blank hl h.ra hb sf lines
   rw [rebind e1] at hA
   have hobB : sB.pc.opened = [bqBlock] := by rw [h.c.opened, ho]; rfl
@@ -410,8 +431,9 @@ theorem lineBlankNil {src al} (cl : Cls src al) {f : Nat} (ih : MainP src al f) 
       { r := r''.advanceLine, nodes := sB.nodes, pc := { sB.pc with blockOffset := bo, blockIndent := bi } } :=
     ⟨h.tf, hr1, by simpa using hadv, h.n, ⟨h.c.opened, h.c.tmpPara, h.c.fence, h.c.skipList, h.c.emptyItemBlank⟩, h.a,
       fun hne => absurd ho hne⟩
-  obtain ⟨h1, _⟩ := ih (k + 1) (lineEnd src ls) _ _ hls (pos_next hl) (by omega) sA'
-  obtain ⟨x, sB', eL, hrel⟩ := h1 ho sf (lines + 1) fo stA hA (stB ++ [bqStat src k ls])
+  obtain ⟨h1, _⟩ := ih (k + 1) (lineEnd src ls) _ _ hls (hsl.congr_r r1) (pos_next hl) (by omega) sA'
+  obtain ⟨x, sB', eL, hrel⟩ := h1 ho sf (lines + 1) fo stA (fun hfl => absurd hfl hnfl) hA (stB ++ [bqStat src k ls])
+    (fun hfl => absurd hfl hnfl)
   refine ⟨x, sB', ?_, hrel⟩
   show StateT.bind _ _ sB = _
   unfold StateT.bind
@@ -425,11 +447,12 @@ theorem lineBlankNil {src al} (cl : Cls src al) {f : Nat} (ih : MainP src al f) 
 /-- a line that is not blank while nothing is open in A: both runs call openBlocks (A below its Document, B below
     its Blockquote) -/
 theorem lineOpenNil {src al} (cl : Cls src al) {f : Nat} (ih : MainP src al f) {k ls} {sA sB : St}
-    (h : LS src al k ls sA sB) (hl : LineAt src k ls) (ho : sA.pc.opened = [])
+    (h : LS src al k ls sA sB) (hsl : L.StableL src 0 sA) (hl : LineAt src k ls) (ho : sA.pc.opened = [])
     (hb : isBlank (sub src ls (lineEnd src ls)) = false) (hfuel : nlCount src + 2 ≤ f + 1 + k) {sA' : St}
-    (sf : Nat) (lines : Int) (fo : Nat) (stA : List LineStat)
-    (hA : (skipFrom (sf + 1) lines >>= blocksBody fo stA) sA = .ok ((), sA')) : Goal src (f + 1) sB sA' := by
-  intro stB
+    (sf : Nat) (lines : Int) (fo : Nat) (stA : List LineStat) (hlines : FL src → lines = 0)
+    (hA : (skipFrom (sf + 1) lines >>= blocksBody fo stA) sA = .ok ((), sA')) :
+    Goal src al (f + 1) k sA.pc.opened stA sB sA' := by
+  intro stB hsi
   obtain ⟨r1, e1, hr1⟩ := skipFrom_line hl h.ra hb sf lines
   rw [bind_run e1] at hA
   unfold blocksBody at hA
@@ -449,8 +472,19 @@ theorem lineOpenNil {src al} (cl : Cls src al) {f : Nat} (ih : MainP src al f) {
   simp only [beq_self_eq_true, if_true] at eH
   have hdrl : DRL src al k ls ls { sA with r := r1 } { sB with r := r' } :=
     ⟨⟨h.tf, InL.start hl, hr1, hR.b⟩, h.n, h.c, h.a⟩
+  have hline1 : r1.line = (k : Int) := by
+    have := hr1.abs.line; simpa [clearLo] using this
+  have hstats : FL src → (if (lines != 0) = true then blankStats r1.line lines sA.pc.opened.length else stA) = stA := by
+    intro hfl; rw [hlines hfl]; rfl
+  have hbf : ∀ (x : Int) (l : List LineStat), (FL src → x = (k : Int) ∧ l = stA) → FL src →
+      isBlankLine ((k : Int) - 1) 0 (stB ++ [bqStat src k ls]) = isBlankLine (x - 1) 0 l := by
+    intro x l hxl hfl
+    obtain ⟨hx, hl'⟩ := hxl hfl
+    obtain ⟨hlst, hne⟩ := hsi hfl
+    rw [hx, hl', isBlankLine_nb0 _ stA (hne ho) hlst.nA, bqStat_eq,
+      isBlankLine_nb0 _ _ (by simp) (nb0_bq hlst.nB)]
   obtain ⟨db, sB2, eOB, _, ⟨p', hDR⟩, hopens⟩ := openBlocks_sim cl.ps cl.fr cl.ot cl.ns cl.tr _
-    (isBlankLine ((k : Int) - 1) 0 (stB ++ [bqStat src k ls])) 0 hdrl d sA2 hd
+    (isBlankLine ((k : Int) - 1) 0 (stB ++ [bqStat src k ls])) (hbf _ _ (fun hfl => ⟨hline1, hstats hfl⟩)) 0 hdrl d sA2 hd
   have hdn : d = OpenResult.newBlocksOpened := by
     refine hopens ho ?_
     unfold NBV viewA
@@ -461,6 +495,13 @@ theorem lineOpenNil {src al} (cl : Cls src al) {f : Nat} (ih : MainP src al f) {
     rw [hdn] at hnew; cases hnew
   · rw [if_neg hnew] at hA2
     obtain ⟨x, sB', eL, hrel⟩ := afterLine cl.ns ih hDR (by omega) fo fo _ hA2 (stB ++ [bqStat src k ls])
+      (fun hfl => by
+        rw [hstats hfl, bqStat_eq]
+        refine ⟨?_, fun e => absurd e (openBlocks_new_ne _ _ _ _ _ hd hdn)⟩
+        have := lst_next (cur_start (hsi hfl).1)
+        rw [show ((k + 1 : Nat) : Int) = (k : Int) + 1 by omega]
+        exact this)
+      (stable_openBlocks0 (s := { sA with r := r1 }) (hsl.congr_r r1) ho hr1 (padOK_zero _ _) hd)
     refine ⟨x, sB', ?_, hrel⟩
     show StateT.bind _ _ sB = _
     unfold StateT.bind
@@ -471,11 +512,11 @@ theorem lineOpenNil {src al} (cl : Cls src al) {f : Nat} (ih : MainP src al f) {
 
 /-- a line while blocks are open in A: the per-line loops run in lock step, B one level deeper -/
 theorem lineOpenSome {src al} (cl : Cls src al) {f : Nat} (ih : MainP src al f) {k ls} {sA sB : St}
-    (h : LS src al k ls sA sB) (hl : LineAt src k ls) (ho : sA.pc.opened ≠ [])
+    (h : LS src al k ls sA sB) (hsl : L.StableL src 0 sA) (hl : LineAt src k ls) (ho : sA.pc.opened ≠ [])
     (hfuel : nlCount src + 2 ≤ f + 1 + k) {sA' : St}
     (fi fo : Nat) (stA : List LineStat)
-    (hA : resume fo (fi + 1) stA sA = .ok ((), sA')) : Goal src (f + 1) sB sA' := by
-  intro stB
+    (hA : resume fo (fi + 1) stA sA = .ok ((), sA')) : Goal src al (f + 1) k sA.pc.opened stA sB sA' := by
+  intro stB hsi
   unfold resume at hA
   obtain ⟨z, sA1, hz, hA1⟩ := bind_inv hA
   rw [linesLoop_ne fi stA sA ho] at hz
@@ -497,7 +538,9 @@ theorem lineOpenSome {src al} (cl : Cls src al) {f : Nat} (ih : MainP src al f) 
   have hDR : DR src al k ls ls sA { sB with r := r' } :=
     ⟨⟨hR, h.n, ⟨hstrict.1, hstrict.2, h.c.opened, h.c.tmpPara, h.c.fence, h.c.skipList, h.c.emptyItemBlank⟩⟩, h.a⟩
   obtain ⟨yb, sB2, eLB, hyb, hrel⟩ := lineLoop_sim cl.ps cl.fr cl.ot cl.ns cl.tr sA.pc.opened ((sA.pc.opened.length : Int) - 1)
-    sA.pc.opened (fun _ hb => hb) 0 (Int.le_refl _) stA (stB ++ [bqStat src k ls]) hDR rfl rfl y sA2 hy
+    sA.pc.opened (fun _ hb => hb) 0 (Int.le_refl _) stA (stB ++ [bqStat src k ls]) hDR rfl rfl
+    (fun hfl => by rw [bqStat_eq]; exact cur_start (hsi hfl).1) (fun _ => rfl) [] (mid_start hsl rfl h.ra (padOK_zero _ _))
+    y sA2 hy
   obtain ⟨oA, blA⟩ := y
   obtain ⟨oB, blB⟩ := yb
   simp only at hyb hrel
@@ -519,7 +562,7 @@ theorem lineOpenSome {src al} (cl : Cls src al) {f : Nat} (ih : MainP src al f) 
     cases hA1
     exact ⟨blB, sB2, rfl, hrel⟩
   | next =>
-    obtain ⟨p', hd2⟩ := hrel
+    obtain ⟨⟨p', hd2⟩, hst⟩ := hrel
     unfold linesCont at hz2
     simp only at hz2
     obtain ⟨u, sA3, hadv, hll⟩ := bind_inv hz2
@@ -529,6 +572,17 @@ theorem lineOpenSome {src al} (cl : Cls src al) {f : Nat} (ih : MainP src al f) 
       rw [bind_run hll]
       exact hA1
     obtain ⟨x, sB', eL, hrel'⟩ := afterLine cl.ns ih hd2 (by omega) fo fi blA hA3 blB
+      (fun hfl => by
+        obtain ⟨j, hj, hcur⟩ := hst hfl
+        have hj1 : 1 ≤ j := by
+          cases hop : sA.pc.opened with
+          | nil => exact absurd hop ho
+          | cons a l => rw [hop] at hj; simpa [loOf] using hj
+        refine ⟨?_, fun _ => cur_ne hcur hj1⟩
+        have := lst_next hcur
+        rw [show ((k + 1 : Nat) : Int) = (k : Int) + 1 by omega]
+        exact this)
+      (stable_lineLoop hsl rfl h.ra (padOK_zero _ _) hy)
     refine ⟨x, sB', ?_, hrel'⟩
     unfold linesCont
     exact eL
@@ -549,13 +603,13 @@ theorem mainP_all {src al} (cl : Cls src al) : ∀ fB, MainP src al fB := by
   intro fB
   induction fB with
   | zero =>
-    intro k ls sA sB _ hpos hfuel
+    intro k ls sA sB _ _ hpos hfuel
     have := pos_bound hpos
     omega
   | succ f ih =>
-    intro k ls sA sB h hpos hfuel sA'
+    intro k ls sA sB h hsl hpos hfuel sA'
     constructor
-    · intro ho sf lines fo stA hA
+    · intro ho sf lines fo stA hlines hA
       cases sf with
       | zero =>
         obtain ⟨_, _, hm, _⟩ := bind_inv hA
@@ -563,15 +617,15 @@ theorem mainP_all {src al} (cl : Cls src al) : ∀ fB, MainP src al fB := by
       | succ sf =>
         rcases hpos with hl | he
         · by_cases hb : isBlank (sub src ls (lineEnd src ls)) = true
-          · exact lineBlankNil cl ih h hl ho hb hfuel sf lines fo stA hA
-          · exact lineOpenNil cl ih h hl ho (by simpa using hb) hfuel sf lines fo stA hA
+          · exact lineBlankNil cl ih h hsl hl ho hb hfuel sf lines fo stA hA
+          · exact lineOpenNil cl ih h hsl hl ho (by simpa using hb) hfuel sf lines fo stA hlines hA
         · exact eofNil h he ho f sf lines fo stA hA
     · intro ho fi fo stA hA
       cases fi with
       | zero => rw [resume_zero] at hA; cases hA
       | succ fi =>
         rcases hpos with hl | he
-        · exact lineOpenSome cl ih h hl ho hfuel fi fo stA hA
+        · exact lineOpenSome cl ih h hsl hl ho hfuel fi fo stA hA
         · exact eofOpen cl h he ho f fi fo stA hA
 
 end GM.Blocks
